@@ -153,10 +153,10 @@ def main(argv=None):
         if evaluations == 0:
             inconclusive.append("no evaluations")
     reach_rows = reach.table(prop, VERIF, pv.SRC, hits) if hits else []
-    if not a.replay and reach_rows and not os.environ.get("PV_NO_REACH") and not os.environ.get("PV_REPO"):
-        for row in reach_rows:
-            if row["lines"] > 0 and row["hit"] == 0 and row["mechanism"] not in getattr(mod, "REACH_OPTIONAL", ()):
-                inconclusive.append(f"anchored mechanism never executed: {row['mechanism']}")
+    # reach is evidence, not a verdict: anchors are line ranges of the pinned commit mapped through `git diff`, which a
+    # harmless refactoring can invalidate; whether the deciding monitors were reached is decided by the counter floors
+    reach_warnings = [f"anchored mechanism not seen executing: {row['mechanism']}" for row in reach_rows
+                      if row["lines"] > 0 and row["hit"] == 0]
 
     # ---- known findings ----------------------------------------------------------------
     known = [k for k in load_known().get("known", []) if k.get("property") == prop]
@@ -204,6 +204,7 @@ def main(argv=None):
         observed_sizes={k: len(v) for k, v in sorted(sets.items())},
         shards=len(specs),
         reach=reach_rows,
+        reach_warnings=reach_warnings,
         verdict=verdict,
         inconclusive_reasons=inconclusive[:10],
         known_findings_reported=[k["mechanism"] for k in known_hit.values()],
